@@ -39,6 +39,9 @@ def gen_model(rng, T, smax, vals):
     if 'dup' not in c and rng.random() < 0.25:
         k = rng.randrange(T)
         c['none'] = [k, rng.randrange(ns[k])]
+    # how the observation of an epoch is made up from features of the track before it reaches the observation model: one feature, several, a 2D or 3D position from the
+    # first two / three plus the remaining ones; the likelihood tables apply to the observation as documented (a model handed anything else answers from another table)
+    c['obsmode'] = rng.choice([None, None, 'list', '2d', '2d+', '2d+', '3d', '3d+'])
     return c
 
 
@@ -99,21 +102,43 @@ def run_impl(case):
     from tracklib.algo.dynamics import HMM
     ns, p, qq = case['ns'], case['p'], case['q']
     T = len(ns)
-    tr = Track([Obs(ENUCoords(i, 0, 0), ObsTime.readUnixTime(i)) for i in range(T)])
+    tr = Track([Obs(ENUCoords(i, 2 * i + 1, 3 + i), ObsTime.readUnixTime(i)) for i in range(T)])
     tr.createAnalyticalFeature('o', 0.0)
+    tr.createAnalyticalFeature('o2', [k + 1.5 for k in range(T)])
+    om = case.get('obsmode')
+    names, mode = {None: ('o', 0), 'list': (['o', 'o2'], 0), '2d': (['x', 'y'], 1), '2d+': (['x', 'y', 'o2'], 1), '3d': (['x', 'y', 'z'], 2), '3d+': (['x', 'y', 'z', 'o2', 'o'], 2),
+                   's2d+': (['x', 'y', 'o2', 'o'], 3)}[om]
+    def documented(y, k):
+        """is y the observation of epoch k as the documentation of estimate() describes it?  (None: the harness itself reading the tables)"""
+        if y is None:
+            return True
+        C = lambda c, z: hasattr(c, 'getX') and (c.getX(), c.getY(), c.getZ()) == (k, 2 * k + 1, z)
+        if om is None:
+            return y == 0.0
+        if om == 'list':
+            return list(y) == [0.0, k + 1.5]
+        if om == '2d':
+            return C(y, 0.0)
+        if om == '2d+':
+            return isinstance(y, list) and len(y) == 2 and C(y[0], 0.0) and y[1] == k + 1.5
+        if om == 's2d+':
+            return isinstance(y, list) and len(y) == 3 and C(y[0], 0.0) and y[1:] == [k + 1.5, 0.0]
+        if om == '3d':
+            return C(y, 3 + k)
+        return isinstance(y, list) and len(y) == 3 and C(y[0], 3 + k) and y[1:] == [k + 1.5, 0.0]
     nn = case.get('none')                          # one candidate state may be the label None (an "unmatched / off-road" state)
     idx = lambda k, s: nn[1] if s is None else (s - 100 * (k + 1)) // 7
     lab = lambda k, l: None if (nn and nn[0] == k and nn[1] == l) else label(k, canon(case, k, l))
     sign = -1.0 if case['log'] else 1.0
     hmm = HMM(S=lambda t, k: [lab(k, l) for l in range(ns[k])],
               Q=lambda s1, s2, k, t: sign * float(qq[k + 1][idx(k, s1)][idx(k + 1, s2)]),
-              P=lambda s, y, k, t: sign * float(p[k][idx(k, s)]), log=case['log'])
+              P=lambda s, y, k, t: sign * float(p[k][idx(k, s)] if documented(y, k) else p[k][::-1][idx(k, s)]), log=case['log'])
     if case.get('again'):                         # the same track object was decoded before, with another model over the same candidate lists
         h0 = HMM(S=lambda t, k: [lab(k, l) for l in range(ns[k])],
                  Q=lambda s1, s2, k, t: sign * 1.0,
                  P=lambda s, y, k, t: sign * float(p[k][::-1][idx(k, s)] if not case.get('dup') else 1.0), log=case['log'])
-        h0.estimate(tr, 'o', verbose=0)
-    hmm.estimate(tr, 'o', verbose=0)
+        h0.estimate(tr, names, mode=mode, verbose=0)
+    hmm.estimate(tr, names, mode=mode, verbose=0)
     # the cost tables the implementation itself used
     pc = [[-hmm.Plog(lab(k, l), None, k, tr) for l in range(ns[k])] for k in range(T)]
     qc = [None] + [[[-hmm.Qlog(lab(k - 1, m), lab(k, l), k - 1, tr) for l in range(ns[k])] for m in range(ns[k - 1])] for k in range(1, T)]
